@@ -60,10 +60,12 @@ def parseWorld (toks : List String) : World :=
   let lks := (splitList (field toks "lk") ',').filterMap (fun t =>
     match t.split (· == ':') |>.toList |>.map (·.toString) with
     | [a, up, prods] => some { addr := a, up := up == "1", producers := splitList prods '+' : Lookupd }
+    | [a, up, prods, pu] => some { addr := a, up := up == "1", producers := splitList prods '+', postUp := pu == "1" : Lookupd }
     | _ => none)
   let nds := (splitList (field toks "nd") ',').filterMap (fun t =>
     match t.split (· == ':') |>.toList |>.map (·.toString) with
     | [a, up, ht] => some { addr := a, up := up == "1", hasTopic := ht == "1" : Nsqd }
+    | [a, up, ht, pu] => some { addr := a, up := up == "1", hasTopic := ht == "1", postUp := pu == "1" : Nsqd }
     | _ => none)
   { lookupds := lks, nsqdAddrs := splitList (field toks "na") ',', nsqds := nds }
 
